@@ -17,14 +17,22 @@ TABLES = [
     [("a=a", 0), ("a", 1), ("a", 0), ("aaa", 1), ("a a", 1)],
     [],
     [("a", "T"), ("a", "V"), ("aa", "V"), ("", "F"), ("a", 1)],
+    [("aa", "N0"), ("a", "N1"), ("a", 0), ("aa", 1), ("", "N0")],      # null handlers: flag- and value-shaped
 ]
 BIG_TABLE = [("foo", 0), ("bar", 1), ("baz", 1), ("init.exec", 1), ("quiet", 0), ("path1", 1), ("fo", 0), ("", 1), ("bar", 0),
-             ("foo", "T"), ("quiet", "F"), ("baz", "V"), ("n", "i32"), ("m", "u8"), ("k", "i64"), ("j", "u16"), ("bar", "V")]
+             ("foo", "T"), ("quiet", "F"), ("baz", "V"), ("n", "i32"), ("m", "u8"), ("k", "i64"), ("j", "u16"), ("bar", "V"),
+             ("debug", "N0"), ("console", "N1"), ("quiet", "N0"), ("baz", "N1")]
 
 def table_lines(tbl):
     """entries: (name, 0|1) = custom recording callback without/with argument; (name, kind) with kind in
     T F V i32 u8 u16 i64 = the real helper of cmdline.hpp (store_true/false, as_string_view, as_number<T>)"""
-    return [("opt %s %d" % (hs(n), h)) if isinstance(h, int) else ("ropt %s %s" % (hs(n), h)) for n, h in tbl]
+    def line(n, h):
+        if isinstance(h, int):
+            return "opt %s %d" % (hs(n), h)
+        if h in ("N0", "N1"):            # reserved option with a NULL handler, flag-shaped / value-shaped
+            return "nopt %s %s" % (hs(n), h[1])
+        return "ropt %s %s" % (hs(n), h)
+    return [line(n, h) for n, h in tbl]
 
 def corpus():
     cs = []
@@ -38,6 +46,14 @@ def corpus():
     cs.append(("corpus-helpers", table_lines([("foo", "T"), ("bar", "V"), ("baz", 1), ("n", "i32"), ("m", "u8"), ("q", "F")]) +
                ["parse " + hs('foo bar=x "baz=a b" n=123 m=300 n=99999999999999 bar')]))
     cs.append(("corpus-helper-i64-max", table_lines([("n", "i64")]) + ["parse " + hs('n=9223372036854775807')]))
+    # seeded: try_apply_arg calling opt.fn.ptr directly (bypassing FRG_ASSERT(fn.ptr) in option::apply): a reserved option
+    # with a null handler named in the matching shape must stop in the assertion hook, at the start / middle / end
+    for pos, line in (("start", "debug x=1 y"), ("middle", "x=1 debug y"), ("end", "x=1 y debug")):
+        cs.append(("corpus-null-flag-" + pos, table_lines([("x", 1), ("debug", "N0"), ("y", 0)]) + ["parse " + hs(line)]))
+    for pos, line in (("start", "console=ttyS0 x y=2"), ("middle", "x console=ttyS0 y=2"), ("end", "x y=2 console=ttyS0"),
+                      ("quoted", 'x "console=tty S0" y=2')):
+        cs.append(("corpus-null-value-" + pos, table_lines([("x", 0), ("console", "N1"), ("y", 1)]) + ["parse " + hs(line)]))
+    cs.append(("corpus-null-wrong-shape", table_lines([("debug", "N0"), ("console", "N1")]) + ["parse " + hs("debug=1 console")]))
     cs.append(("corpus-null-cmdline", table_lines([("", 0), ("a", 1)]) + ["parsenull"]))
     cs.append(("corpus-empty-cmdline", table_lines([("", 0), ("a", 1)]) + ["parse -"]))
     return cs
@@ -64,7 +80,7 @@ def grammar(rng, i):
     tbl = list(BIG_TABLE)
     rng.shuffle(tbl)
     tbl = tbl[:rng.randrange(1, len(tbl) + 1)]
-    names = [n for n, _ in BIG_TABLE] + ["x", "nosuch", "n", "m", "k", "j"]
+    names = [n for n, _ in BIG_TABLE] + ["x", "nosuch", "n", "m", "k", "j", "debug", "console"]
     toks = []
     for _ in range(rng.randrange(0, 9)):
         n = rng.choice(names)
